@@ -104,7 +104,7 @@ pub fn describe(ev: &Ev) -> String {
                 "core.end err={:?} round={} lvr={} lcr={} hqc={}",
                 error, round, last_voted_round, last_committed_round, high_qc_round
             ),
-            CE::Vote { hash, round, .. } => format!("core.vote {} r{}", short(hash), round),
+            CE::Vote { hash, round, block, .. } => format!("core.vote {} r{} qc.round={} tc={:?}", short(hash), round, block.qc.round, block.tc.as_ref().map(|t| (t.round, t.high_qc_rounds()))),
             CE::Timeout { round, high_qc, .. } => format!("core.timeout r{} hqc={}", round, high_qc.round),
             CE::Round { from, to, .. } => format!("core.round {}->{}", from, to),
             CE::QC { qc, .. } => format!("core.qc {} r{} signers={}", short(&qc.hash), qc.round, qc.votes.len()),
@@ -361,14 +361,39 @@ pub fn check_c03(cx: &Ctx, ix: &Index, sc: &mut SigCache) -> Report {
         let mut last_vote: Option<(u64, usize)> = None;
         let mut timeouts: HashMap<u64, usize> = HashMap::new();
         let mut votes_by_round: HashMap<u64, (Digest, usize)> = HashMap::new();
+        let mut cur_round: u64 = 1;
         for p in positions {
             match &cx.log[*p].kind {
+                Kind::Core(CE::Round { to, .. }) => cur_round = *to,
+                Kind::Core(CE::End { round, .. }) => cur_round = *round,
+                Kind::Core(CE::Process { digest, round, .. }) => {
+                    // Evidence only: which rejecting branches of the voting rule were exercised.
+                    if let Some(b) = ix.blocks.get(digest) {
+                        if *round < cur_round {
+                            r.sit("C03:stale_round_proposal_processed");
+                        } else if *round > cur_round {
+                            r.sit("C03:future_round_proposal_processed");
+                        } else if votes_by_round.contains_key(round) {
+                            r.sit("C03:second_proposal_after_vote");
+                            r.count("C03.offered_second_proposal_after_vote", 1);
+                        } else if timeouts.contains_key(round) {
+                            r.sit("C03:proposal_after_own_timeout");
+                            r.count("C03.offered_proposal_after_own_timeout", 1);
+                        } else if extension(b) == Extension::Neither {
+                            r.sit("C03:unsafe_extension_offered");
+                            r.count("C03.offered_unsafe_extension", 1);
+                        }
+                    }
+                }
                 Kind::Core(CE::Timeout { round, .. }) => {
                     timeouts.entry(*round).or_insert(*p);
                     r.count("C03.timeouts", 1);
                 }
-                Kind::Core(CE::Vote { hash, round, .. }) => {
+                Kind::Core(CE::Vote { hash, round, block: voted, .. }) => {
                     r.count("C03.votes_checked", 1);
+                    if voted.digest() != *hash {
+                        r.violate("C03", "vote-hash-mismatch", format!("node {} voted for hash {} but the proposal hashes to {}", node, short(hash), short(&voted.digest())), wit(cx, &[*p]));
+                    }
                     if let Some((d0, p0)) = votes_by_round.get(round) {
                         r.violate(
                             "C03",
@@ -394,7 +419,7 @@ pub fn check_c03(cx: &Ctx, ix: &Index, sc: &mut SigCache) -> Report {
                             wit(cx, &[*tp, *p]),
                         );
                     }
-                    match ix.blocks.get(hash) {
+                    match Some(voted) {
                         Some(b) => {
                             if b.round != *round {
                                 r.violate("C03", "vote-round-mismatch", format!("vote round {} for block of round {}", round, b.round), wit(cx, &[*p]));
@@ -416,7 +441,7 @@ pub fn check_c03(cx: &Ctx, ix: &Index, sc: &mut SigCache) -> Report {
                                 ),
                             }
                         }
-                        None => r.inconclusive.push(format!("C03: voted block {} unknown", short(hash))),
+                        None => {}
                     }
                     votes_by_round.insert(*round, (hash.clone(), *p));
                     last_vote = Some((*round, *p));
@@ -431,7 +456,7 @@ pub fn check_c03(cx: &Ctx, ix: &Index, sc: &mut SigCache) -> Report {
     let mut hook_timeouts: HashSet<(usize, u64, u64)> = HashSet::new();
     for (pos, ev) in cx.log.iter().enumerate() {
         match &ev.kind {
-            Kind::Core(CE::Vote { node, hash, round }) => {
+            Kind::Core(CE::Vote { node, hash, round, .. }) => {
                 if let Some(i) = cx.idx(node) {
                     hook_votes.insert((i, *round, hash.clone()));
                 }
@@ -758,9 +783,9 @@ pub fn check_c05_c10_c19(cx: &Ctx, ix: &Index, sc: &mut SigCache) -> Report {
                 };
                 let k = known.get_mut(&i).unwrap();
                 match e {
-                    CE::Vote { hash, round, .. } => {
+                    CE::Vote { hash, round, block: voted, .. } => {
                         own_votes.entry(i).or_default().insert((hash.clone(), *round));
-                        if let Some(b) = ix.blocks.get(hash) {
+                        if let Some(b) = Some(voted) {
                             let e = max_voted_qc.entry(i).or_insert((0, pos));
                             if b.qc.round > e.0 {
                                 *e = (b.qc.round, pos);
@@ -986,12 +1011,12 @@ pub fn check_c08(cx: &Ctx, ix: &Index) -> Report {
                     written.entry(*i).or_default().insert(key.clone());
                 }
             }
-            Kind::Core(CE::Vote { node, hash, .. }) => {
+            Kind::Core(CE::Vote { node, block: voted, .. }) => {
                 let i = match cx.idx(node) {
                     Some(i) if cx.is_honest(i) => i,
                     _ => continue,
                 };
-                if let Some(b) = ix.blocks.get(hash) {
+                if let Some(b) = Some(voted) {
                     if b.author == *node {
                         continue;
                     }
@@ -1043,12 +1068,12 @@ pub fn check_c09(cx: &Ctx, ix: &Index, sc: &mut SigCache) -> Report {
     let mut r = Report::default();
     let t = cx.topo;
     for (pos, ev) in cx.log.iter().enumerate() {
-        if let Kind::Core(CE::Vote { node, hash, round }) = &ev.kind {
+        if let Kind::Core(CE::Vote { node, round, block: voted, .. }) = &ev.kind {
             let i = match cx.idx(node) {
                 Some(i) if cx.is_honest(i) => i,
                 _ => continue,
             };
-            if let Some(b) = ix.blocks.get(hash) {
+            if let Some(b) = Some(voted) {
                 r.count("C09.votes_checked", 1);
                 if b.author != t.names[t.leader(*round)] {
                     r.violate(
